@@ -431,5 +431,14 @@ func init() {
 			c01Case(c, w.Src, vs, "witness")
 		},
 		MinNonTrivial: 1000,
+		Require: func(p core.Params, r *core.Result) string {
+			if r.Counters["hook_steps_observed"] == 0 {
+				return "the verif hooks were never reached (library not built with -tags verif, or VERIF_STATS not active): hang detection would be blind"
+			}
+			if r.Counters["proportionality_series"] == 0 || r.Counters["scaling_pairs_measured"] == 0 {
+				return "no proportionality series / scaling pair was measured"
+			}
+			return ""
+		},
 	})
 }
